@@ -247,6 +247,20 @@ func (w *vWorld) store(addr, width, v uint64) {
 	}
 }
 
+// memmove models runtime.memmove called by compiled code: both ranges must lie inside the current linear memory (the
+// only region this model lets compiled code copy between); overlapping ranges behave like memmove.
+func (w *vWorld) memmove(dst, src, n uint64) {
+	if n == 0 {
+		return
+	}
+	d, ok1 := w.memAccess(dst, n)
+	s, ok2 := w.memAccess(src, n)
+	if !ok1 || !ok2 {
+		verifrt.Assume(false)
+	}
+	copy(w.mem[d:d+n], w.mem[s:s+n])
+}
+
 // ---- evaluation
 
 func typeBits(t ssa.Type) uint {
@@ -664,6 +678,9 @@ tailcall:
 						w.exitCode = wazevoapi.ExitCodeCheckModuleExitCode
 						return nil, vOutTrap
 					}
+				case wazevoapi.ExecutionContextOffsetMemmoveAddress:
+					// Go's runtime.memmove(dst, src, n)
+					w.memmove(get(cargs[0]).lo, get(cargs[1]).lo, get(cargs[2]).lo)
 				default:
 					if tag >= 0x30000 && tag < 0x50000 {
 						// listener trampoline: (execCtx, function index, values...)
@@ -763,6 +780,7 @@ func (w *vWorld) Store(addr, width, v uint64)                { w.store(addr, wid
 func (w *vWorld) Mem() []byte                                { return w.mem }
 func (w *vWorld) SetMem(b []byte, maxPages uint32)           { w.mem, w.memMax = b, maxPages }
 func (w *vWorld) Moved()                                     { w.epoch++ }
+func (w *vWorld) Memmove(dst, src, n uint64)                 { w.memmove(dst, src, n) }
 func (w *vWorld) Unsupported() string                        { return w.unsupp }
 func (w *vWorld) MarkUnsupported(s string)                   { w.unsupported(s) }
 func (w *vWorld) Global(i int) uint64                        { return w.globals[i].lo }
